@@ -23,6 +23,7 @@ func rulesC08(c *Ctx) {
 	ruleCheckFlushTable(c)
 	ruleServerFlushTable(c)
 	ruleFlushRefs(c)
+	ruleCounterCallers(c) // a flush releases references only through the audited primitives: it never forgets counts held by entries that remain (shared with C03)
 	ruleFlushScope(c)
 	ruleFlushKeysPresent(c)
 	ruleExactInstanceLookup(c) // Server.Flush rejects unknown / empty names only through this lookup
